@@ -428,6 +428,25 @@ func ruleSlotFunction(w *core.World, r *core.Report, f *ssa.Function) string {
 		}
 	}
 	if sPhi == nil || ePhi == nil {
+		// the part to hash is chosen by a helper: hash(sel(key))
+		if len(rets) > 0 {
+			all := true
+			for _, ri := range rets {
+				c, isC := core.Unwrap(ri.arg).(*ssa.Call)
+				if !isC || c.Call.StaticCallee() == nil || len(c.Call.Args) != 1 || c.Call.Args[0] != key {
+					all = false
+					break
+				}
+				if why := tagSelectorIdiom(c.Call.StaticCallee()); why != "" {
+					all = false
+					break
+				}
+			}
+			if all {
+				r.OK(cons, f.Pos(), "tag selected by a helper of the returning-scan form")
+				return "first{first}nonempty&16383"
+			}
+		}
 		if sum, done := slotFunctionIndexIdiom(w, r, f, key, cons, func(ret *ssa.Return) ssa.Value {
 			for _, ri := range rets {
 				if ri.ret == ret {
@@ -712,4 +731,165 @@ func slotFunctionIndexIdiom(w *core.World, r *core.Report, f *ssa.Function, key 
 	}
 	r.Check(nWhole > 0 && nSlice > 0, cons, f.Pos(), "expected both whole-key and tag returns (whole=%d tag=%d)", nWhole, nSlice)
 	return "first{first}nonempty&16383", true
+}
+
+
+// returningScan recognises
+//
+//	for i := start; i < len(key); i++ { if key[i] != ch { continue }; …always returns… }
+//
+// (or the `== ch { …returns… }` spelling) given the index phi: because the
+// function leaves at the first match, inside the match region i is the first
+// index >= start holding ch. Returns the start value and the match region's
+// entry block.
+func returningScan(ph *ssa.Phi, key ssa.Value, ch int64) (ssa.Value, *ssa.BasicBlock, bool) {
+	if len(ph.Edges) != 2 {
+		return nil, nil, false
+	}
+	var start ssa.Value
+	var inc *ssa.BinOp
+	for _, e := range ph.Edges {
+		if b, ok := e.(*ssa.BinOp); ok && b.Op == token.ADD && b.X == ssa.Value(ph) && isConstInt(1)(b.Y) {
+			inc = b
+		} else {
+			start = e
+		}
+	}
+	if inc == nil || start == nil {
+		return nil, nil, false
+	}
+	head := ph.Block()
+	iff, ok := head.Instrs[len(head.Instrs)-1].(*ssa.If)
+	if !ok {
+		return nil, nil, false
+	}
+	cmp, ok := core.AsCmp(iff.Cond, true)
+	if !ok || cmp.Op != token.LSS || cmp.X != ssa.Value(ph) || !isLenOf(cmp.Y, key) {
+		return nil, nil, false
+	}
+	body := head.Succs[0]
+	bif, ok := body.Instrs[len(body.Instrs)-1].(*ssa.If)
+	if !ok {
+		return nil, nil, false
+	}
+	bc, ok := core.AsCmp(bif.Cond, true)
+	if !ok || (bc.Op != token.EQL && bc.Op != token.NEQ) || !isConstInt(ch)(bc.Y) {
+		return nil, nil, false
+	}
+	lk, ok := core.Unwrap(bc.X).(*ssa.Index)
+	if !ok || lk.X != key || lk.Index != ssa.Value(ph) {
+		return nil, nil, false
+	}
+	match, miss := body.Succs[0], body.Succs[1]
+	if bc.Op == token.NEQ {
+		match, miss = miss, match
+	}
+	// a miss goes on with the next index (possibly through an empty `continue` block)
+	for hops := 0; miss != inc.Block() && hops < 3; hops++ {
+		if len(miss.Instrs) != 1 || len(miss.Succs) != 1 {
+			return nil, nil, false
+		}
+		miss = miss.Succs[0]
+	}
+	if miss != inc.Block() || len(miss.Succs) != 1 || miss.Succs[0] != head {
+		return nil, nil, false
+	}
+	// a match never comes back to the loop
+	if blockReaches(match, head) {
+		return nil, nil, false
+	}
+	// nothing but the test in the loop proper
+	for _, b := range []*ssa.BasicBlock{head, body} {
+		for _, in := range b.Instrs {
+			switch x := in.(type) {
+			case *ssa.Phi, *ssa.BinOp, *ssa.Index, *ssa.If, *ssa.Jump, *ssa.Convert:
+			case *ssa.Call:
+				if bi, ok := x.Call.Value.(*ssa.Builtin); !ok || bi.Name() != "len" {
+					return nil, nil, false
+				}
+			default:
+				return nil, nil, false
+			}
+		}
+	}
+	return start, match, true
+}
+
+// tagSelectorIdiom: g(key) returns the part of the key that HASH_SLOT hashes,
+// written as two nested returning scans: the first '{' from index 0, inside
+// its match region the first '}' from the next index, inside that region the
+// slice key[s+1:e] exactly when e != s+1; the whole key everywhere else.
+// Returns "" when g has that form, else the reason.
+func tagSelectorIdiom(g *ssa.Function) string {
+	if len(g.Params) != 1 || len(g.Blocks) == 0 {
+		return "not a function of the key alone"
+	}
+	key := ssa.Value(g.Params[0])
+	var sPhi, ePhi *ssa.Phi
+	var m1, m2 *ssa.BasicBlock
+	for _, in := range core.OwnInstrs(g) {
+		if ph, ok := in.(*ssa.Phi); ok {
+			if st, m, ok := returningScan(ph, key, '{'); ok && isConstInt(0)(st) {
+				sPhi, m1 = ph, m
+			}
+		}
+	}
+	if sPhi == nil {
+		return "no scan for the first '{' from index 0 that returns at the match"
+	}
+	for _, in := range core.OwnInstrs(g) {
+		if ph, ok := in.(*ssa.Phi); ok {
+			if st, m, ok := returningScan(ph, key, '}'); ok && isPlusOne(st, sPhi) && m1.Dominates(ph.Block()) {
+				ePhi, m2 = ph, m
+			}
+		}
+	}
+	if ePhi == nil {
+		return "no scan for the first '}' behind the '{' that returns at the match"
+	}
+	bad := ""
+	nSlice, nWhole := 0, 0
+	okEnum := core.EnumPathsN(g.Blocks[0], 0, 100000, 2, func(p *core.Path) {
+		ret, ok := p.End.(*ssa.Return)
+		if !ok || bad != "" || len(ret.Results) != 1 {
+			return
+		}
+		inM2 := false
+		for _, b := range p.Blocks {
+			if b == m2 {
+				inM2 = true
+			}
+		}
+		rv := p.Resolve(ret.Results[0])
+		isE := func(v ssa.Value) bool { return v == ssa.Value(ePhi) }
+		isS1 := func(v ssa.Value) bool { return isPlusOne(v, sPhi) }
+		nonEmpty := p.HoldsRaw(token.NEQ, isE, isS1)
+		empty := p.HoldsRaw(token.EQL, isE, isS1)
+		if rv == key {
+			nWhole++
+			if inM2 && !empty {
+				bad = "the whole key is returned although a non-empty tag was found"
+			}
+			return
+		}
+		sl, ok := rv.(*ssa.Slice)
+		if !ok || sl.X != key || !isS1(sl.Low) || sl.High != ssa.Value(ePhi) {
+			bad = "a return is neither the key nor key[s+1:e]"
+			return
+		}
+		nSlice++
+		if !inM2 || !nonEmpty {
+			bad = "the tag is returned on a path that did not establish: '}' found behind the first '{', tag non-empty"
+		}
+	})
+	if !okEnum {
+		return "too many paths"
+	}
+	if bad != "" {
+		return bad
+	}
+	if nSlice == 0 || nWhole == 0 {
+		return "expected both whole-key and tag returns"
+	}
+	return ""
 }
